@@ -26,17 +26,19 @@ Proof.
 Qed.
 Theorem take_str_truncated l r : N.of_nat (length r) < l -> take_str l r = None.
 Proof. intros H. unfold take_str. destruct (N.of_nat (length r) <? l) eqn:E; [reflexivity|lia]. Qed.
-Theorem read_slice_exact n r s r' : read_slice n r = Some (Some s, r') -> r = s ++ r' /\ Z.of_nat (length s) = n.
+Theorem read_slice_exact n r s r' : read_slice n r = Some (s, r') -> r = s ++ r' /\ Z.of_nat (length s) = n.
 Proof.
-  unfold read_slice. destruct (n <=? 0)%Z eqn:E0; [discriminate|].
+  unfold read_slice. destruct (n <? 0)%Z eqn:E0; [discriminate|].
   destruct (Z.of_nat (length r) <? n)%Z eqn:E; [discriminate|]. intros H. inversion H; subst.
   split; [symmetry; apply firstn_skipn|]. rewrite firstn_length_le by lia. lia.
 Qed.
-Theorem read_slice_truncated n r : (0 < n)%Z -> (Z.of_nat (length r) < n)%Z -> read_slice n r = None.
+Theorem read_slice_truncated n r : (Z.of_nat (length r) < n)%Z -> read_slice n r = None.
 Proof.
-  intros H0 H. unfold read_slice. destruct (n <=? 0)%Z eqn:E0; [lia|].
+  intros H. unfold read_slice. destruct (n <? 0)%Z eqn:E0; [reflexivity|].
   destruct (Z.of_nat (length r) <? n)%Z eqn:E; [reflexivity|lia].
 Qed.
+Theorem read_slice_negative n r : (n < 0)%Z -> read_slice n r = None.
+Proof. intros H. unfold read_slice. destruct (n <? 0)%Z eqn:E0; [reflexivity|lia]. Qed.
 
 (* every proper prefix of a primitive field is rejected when the field is required *)
 Lemma read_head2_partial ty : ty < 16 -> read_head2 [240 + ty] = None.
@@ -116,16 +118,42 @@ Proof.
     cbv iota. cbn [andb]. destruct (64 <=? bits)%Z; cbn [andb]; [now rewrite bread_short|reflexivity].
 Qed.
 
-(* ---------- C04: ResetDefault only resets members that declare a default ---------- *)
-Example reuse_refuted_witness :
-  (* a target that holds [7; "boom"] decodes an encoding containing only the required member: the
-     optional string without a declared default keeps the stale value *)
+(* ---------- C04: the repaired ResetDefault assigns every member ---------- *)
+(* decoding does not depend on what the target held before: ANY two prior targets (of any shape), any schema
+   environment, any struct type, any bytes *)
+Theorem decode_into_prior_indep e sid p1 p2 bs : decode_into e sid p1 bs = decode_into e sid p2 bs.
+Proof. reflexivity. Qed.
+Theorem dec_var_struct_prior_indep fuel e tag req sid p1 p2 bs :
+  dec_var fuel e tag req (TStruct sid) p1 bs = dec_var fuel e tag req (TStruct sid) p2 bs.
+Proof. destruct fuel; reflexivity. Qed.
+(* ... in particular decoding into a used target gives what decoding into a fresh one gives *)
+Theorem decode_into_fresh e sid prior bs : decode_into e sid prior bs = decode e sid bs.
+Proof. reflexivity. Qed.
+
+Example reuse_witness :
+  (* the witness of the former finding: a target that holds [7; "boom"] decodes an encoding containing only the
+     required member; the optional string without a declared default is reset (Codec/Pinned.v: the pinned code
+     kept "boom") *)
   let e := [[ {| ftag := 0; freq := true; fty := TI32; fdef := None |};
               {| ftag := 1; freq := false; fty := TStr; fdef := None |} ]] in
   decode_into e 0 (VStruct [VInt 7; VStr [98; 111; 111; 109]]) (w_int32 5 0)
-  = DOk (VStruct [VInt 5; VStr [98; 111; 111; 109]]) [].
+  = DOk (VStruct [VInt 5; VStr []]) [].
 Proof. vm_compute. reflexivity. Qed.
 
+(* every member is reset to its declared default or, where none is declared, to the zero value of its type
+   (struct members: reset recursively) - whatever the target held *)
+Lemma reset_default_member f e sid v : forall i fd,
+  nth_error (fields_of e sid) i = Some fd ->
+  match reset_default (S f) e sid v with
+  | VStruct l => nth_error l i = Some (match fdef fd with
+                                       | Some d => d
+                                       | None => match fty fd with TStruct s => reset_default f e s v | t => zero_of f e t end
+                                       end)
+  | _ => False
+  end.
+Proof.
+  intros i fd Hn. unfold reset_default. cbn [reset_val]. now rewrite nth_error_map, Hn.
+Qed.
 (* members with a declared default do not depend on the prior target *)
 Lemma reset_default_declared f e sid vs : forall i fd d,
   nth_error (fields_of e sid) i = Some fd -> fdef fd = Some d -> (i < length vs)%nat ->
@@ -134,13 +162,8 @@ Lemma reset_default_declared f e sid vs : forall i fd d,
   | _ => False
   end.
 Proof.
-  cbn [reset_default]. generalize (fields_of e sid) as fds. intros fds. revert vs.
-  induction fds as [|fd0 fds IH]; intros vs i fd d Hn Hd Hi.
-  - destruct i; discriminate.
-  - destruct vs as [|x vs]; [cbn in Hi; lia|].
-    destruct i as [|i].
-    + cbn in Hn. inversion Hn; subst. cbn. now rewrite Hd.
-    + cbn in Hn. cbn in Hi. specialize (IH vs i fd d Hn Hd ltac:(lia)). cbn. exact IH.
+  intros i fd d Hn Hd _. pose proof (reset_default_member f e sid (VStruct vs) i fd Hn) as H.
+  destruct (reset_default (S f) e sid (VStruct vs)); try exact H. now rewrite Hd in H.
 Qed.
 
 (* ---------- C05: outcome classification of the decoder's scalar layer; explicit refutation witnesses ---------- *)
@@ -151,11 +174,12 @@ Proof.
   match goal with |- match of_rres ?r _ _ with _ => _ end => destruct r; exact I end.
 Qed.
 
-(* a request whose byte vector arrives as a LIST with count -1 panics in make; count 2^30 with nothing left over-allocates *)
-Example no_panic_refuted_witness :
+(* the witnesses of the former findings: a byte vector sent as a LIST with count -1 (the pinned code panicked in
+   make) or 2^30 with nothing behind it (the pinned code allocated) is refused (Codec/Pinned.v has the pinned outcomes) *)
+Example hostile_count_witness :
   let e := [[ {| ftag := 7; freq := true; fty := TVec TI8; fdef := None |} ]] in
-  decode e 0 [121; 0; 255] = DPanic site_makeslice /\
-  decode e 0 [121; 2; 64; 0; 0; 0] = DHuge.
+  decode e 0 [121; 0; 255] = DErr /\
+  decode e 0 [121; 2; 64; 0; 0; 0] = DErr.
 Proof. vm_compute. split; reflexivity. Qed.
 
 (* the nesting limit: at the limit a nested head is refused without recursing, whatever follows *)
